@@ -107,18 +107,23 @@ func implParse(text []byte) (string, []string) {
 	var src *formula.SourceCode
 	var err error
 	var fails []string
-	pan, msg := protect(func() { src, err = formula.ParseSourceCode(text) })
+	ar := newArena(text)
+	pan, msg := protect(func() { src, err = formula.ParseSourceCode(ar.text) })
 	if pan {
 		return "panic", []string{"ParseSourceCode panicked: " + msg}
+	}
+	if m := ar.check(); m != "" {
+		fails = append(fails, m)
 	}
 	var sb strings.Builder
 	if err == nil {
 		if src == nil || src.Expression == nil {
 			return "A (nil)", []string{"no error but no tree"}
 		}
+		fails = append(fails, checkComplete(src, text)...)
+		ar.scribble() // names and literal values of the tree are the tree's own
 		sb.WriteString("A ")
 		printTree(&sb, src.Expression)
-		fails = append(fails, checkComplete(src, text)...)
 		return sb.String(), fails
 	}
 	m := errRe.FindStringSubmatch(err.Error())
